@@ -866,3 +866,107 @@ def check_ms_getter(ob, prog, getter, field, key=None):
                     if op.get("k") == "const" and "fn" in op and strip_generics(op["fn"]).startswith("core::time::Duration::from_"):
                         ctors.append(strip_generics(op["fn"]).split("::")[-1])
     ob.require(bool(ctors) and all(x == "from_millis" for x in ctors), f"{key}/unit-ms", f"{getter}: field {field} is in milliseconds but Durations are built with {sorted(set(ctors))}", b.path, b.loc())
+
+
+# ---------------------------------------------------------------------------
+# call-path multiplicity (inlining view of a small call tree)
+
+
+def call_sites_through(prog, root, pred, depth=4):
+    """All (call, chain) pairs where `call` satisfies pred(call) and is reached from body `root` by a chain of
+    crate-local calls / closure constructions of length <= depth. A site reached along two different chains (or a
+    callee invoked from two sites) is listed once per chain: the result is the multiset an inliner would produce.
+    Cleanup blocks are ignored. Recursion is cut (a body never appears twice on one chain)."""
+    out = []
+
+    def rec(b, chain):
+        for c in b.calls():
+            if b.is_cleanup(c.bb):
+                continue
+            if pred(c):
+                out.append((c, chain + (b.path,)))
+            if len(chain) >= depth:
+                continue
+            tgt = None
+            for n in (c.res, c.fn):
+                if n and n in prog.bodies:
+                    tgt = n
+                    break
+            if tgt and tgt not in chain and tgt != b.path:
+                rec(prog.bodies[tgt], chain + (b.path,))
+        if len(chain) < depth:
+            for k in prog.children(b):
+                if k.path not in chain:
+                    rec(k, chain + (b.path,))
+
+    rec(root, ())
+    return out
+
+
+# ---------------------------------------------------------------------------
+# ownership across suspension points
+
+
+def _is_local(pl, L):
+    return (pl == L) if isinstance(pl, int) else (pl["l"] == L and not pl["p"])
+
+
+def owned_live_at_yield(body, L):
+    """Yield blocks at which the value owned by local `L` may still be alive: forward from every definition of L,
+    killed by StorageDead(L), drop(L), a move of the whole local, or a re-definition. (mir_built: drops are not yet
+    elaborated, so a whole-local move is what ends ownership on the moving path.)"""
+    def stmt_kills(s):
+        if s["k"] == "dead":
+            return s["l"] == L
+        if s["k"] == "assign":
+            for op in rvalue_operands(s["rv"]):
+                if op.get("k") == "move" and _is_local(op["pl"], L):
+                    return True
+        return False
+
+    def term_kills(t):
+        k = t["k"]
+        if k == "drop":
+            return _is_local(t["pl"], L)
+        if k == "call":
+            return any(op.get("k") == "move" and _is_local(op["pl"], L) for op in t["args"])
+        if k == "yield":
+            v = t.get("value") or {}
+            return v.get("k") == "move" and _is_local(v["pl"], L)
+        return False
+
+    starts = []
+    for i, bl in enumerate(body.blocks):
+        if bl.get("cleanup"):
+            continue
+        for j, s in enumerate(bl["s"]):
+            if s["k"] == "assign" and _is_local(s["lhs"], L):
+                starts.append((i, j + 1))
+        t = bl["t"]
+        if t["k"] == "call" and _is_local(t["dest"], L) and t.get("target") is not None:
+            starts.append((t["target"], 0))
+    if L >= 1 and L <= body.argc:
+        starts.append((0, 0))
+    seen, hits = set(), []
+    st = list(starts)
+    while st:
+        bb, j = st.pop()
+        if (bb, j) in seen or body.is_cleanup(bb):
+            continue
+        seen.add((bb, j))
+        bl = body.blocks[bb]
+        killed = False
+        for s in bl["s"][j:]:
+            if stmt_kills(s):
+                killed = True
+                break
+        if killed:
+            continue
+        t = bl["t"]
+        if term_kills(t):
+            continue
+        if t["k"] == "yield":
+            hits.append(bb)
+        for n in body.succ(bb):
+            st.append((n, 0))
+    return sorted(set(hits))
